@@ -13,6 +13,10 @@ and output (a relational property over all call histories).  Decided:
   D4  partial-block position plumbing: the value returned by
       ascon_aead_{en,de}crypt_{8,16} is stored to state->posn and fed back as
       `partial` on the next call and to ascon_pad at finalize
+  D5  (bounded) chunked and in-place incremental AEAD encryption/decryption
+      equals the one-shot specification result for every value of the
+      enumerated shapes; chunked hash/XOF/PRF/HMAC/HKDF shapes are part of the
+      C03-C05 mode comparisons
 """
 import re
 
@@ -64,6 +68,7 @@ def run(rep, tier):
         rule_reinit(rep, m, b.cfg.name, api)
         rule_inplace(rep, m, b.cfg.name, b, "C07.D3")
         rule_posn(rep, m, b.cfg.name)
+    rule_chunking(rep, tier)
     k = len(builds)
     rep.floor("C07.D1", 2 * k)
     rep.floor("C07.D2", 10 * k)
@@ -409,3 +414,27 @@ def rule_posn(rep, m, cname):
                 rep.instance(rid, 1, {"config": cname, "function": name})
             else:
                 rep.violation(rid, name + ":posn", f.src, "%s: %s" % (name, why), config=cname)
+
+
+def rule_chunking(rep, tier):
+    """D5 (bounded): chunked, empty-call and in-place use of the incremental
+    interfaces gives the one-shot specification result for every value of the
+    enumerated shapes (mode-level symbolic comparison, av/sponge.py).  Chunked
+    hash / XOF / PRF / HMAC / HKDF shapes are covered by the C03-C05 cases;
+    here the in-place AEAD block functions."""
+    from . import modecheck, modes
+    rid = "C07.D5"
+    rep.rule(rid, "chunked and in-place incremental AEAD equals the one-shot specification result (bounded shapes)")
+    prep = modes.prepare(tier, cfgs=[repo.Config("c64"), repo.Config("c32"), repo.Config("direct")] if tier == "quick" else None)
+    shapes = [(0, 1), (1, 9), (8, 17), (9, 33)] if tier == "quick" else [(a, n) for a in (0, 1, 9, 17) for n in (0, 1, 7, 8, 9, 16, 17, 33, 40)]
+    cases = []
+    for js, cname, layout, maxs, units in prep:
+        if cname not in rep.configs:
+            rep.configs.append(cname)
+        for alg in ("128", "128a", "80pq"):
+            for (a, n) in shapes:
+                cases.append((js, cname, layout, "case_aead_inplace", (alg, a, n), "in-place %s ad %d message %d" % (alg, a, n),
+                              "ascon%s_aead_decrypt_block" % alg))
+    for d in modecheck.run_cases("C07", rid, tier, cases, None):
+        rep.merge(d)
+    rep.floor_discharged(rid, int(0.9 * len(cases)))
